@@ -1,7 +1,8 @@
 """A real pygls LanguageServer for the C09 runtime tie (subprocess, PYTHONPATH=$VERIF_REPO).
 
   c09_server.py stdio        -> server.start_io()            (sys.stdin / sys.stdout)
-  c09_server.py stdio-sync   -> server._start_io_sync()      (the wrapper start_io uses under WASM)
+  c09_server.py stdio-sync   -> the private sync entry point (the wrapper start_io uses under WASM;
+                                located by harness/priv.py)
   c09_server.py tcp <port>   -> server.start_tcp("127.0.0.1", port)
 
 Written the way a user writes a server script: the start_* call is the last statement, the process
@@ -11,9 +12,12 @@ the teardown of the loop ends; t/thread holds a pool thread for a short, bounded
 Reports on stderr, one line each, flushed: "START <method>" / "END <method>" / "CANCEL <method>"
 per handler, and at interpreter exit "ATEXIT stop=<0|1> pool=<0|1>" (was JsonRPCServer.shutdown()
 run: stop event set, thread pool shut down)."""
-import asyncio, atexit, logging, sys, time
+import asyncio, atexit, logging, os, sys, time
 logging.disable(logging.CRITICAL)
 from pygls.lsp.server import LanguageServer
+sys.path.insert(0, os.path.dirname(os.path.dirname(os.path.abspath(__file__))))
+import priv          # private parts of pygls (the parent check has resolved the same names before it starts us)
+priv.preflight(["server.stop_event", "server.start_io_sync"])     # now: no probing at interpreter exit
 
 
 def log(s):
@@ -64,9 +68,11 @@ def c_sync(*args):
 
 
 def state():
-    ev = getattr(server, "_stop_event", None)
+    ev = priv.stop_event(server)
     stop = int(ev is not None and ev.is_set())
-    down = int(bool(getattr(pool, "_shutdown", False)))     # ThreadPoolExecutor.shutdown() was called
+    # ThreadPoolExecutor.shutdown() was called: the executor's own flag (CPython's concurrent.futures, not
+    # pygls; at interpreter exit every executor refuses work, so submit() cannot tell)
+    down = int(bool(getattr(pool, "_shutdown", False)))
     return "stop=%d pool=%d" % (stop, down)
 
 
@@ -75,6 +81,6 @@ atexit.register(lambda: log("ATEXIT " + state()))
 if sys.argv[1] == "tcp":
     server.start_tcp("127.0.0.1", int(sys.argv[2]))
 elif sys.argv[1] == "stdio-sync":
-    server._start_io_sync()
+    priv.start_io_sync(server)()
 else:
     server.start_io()
